@@ -415,6 +415,20 @@ class Analysis:
                 return 'returned', 'returned unsorted', apath[0]
         if bad:
             c = bad[0]
+            # text made from the sequence (`.join(", ")`) that provably ends up on the error stream only is outside the property
+            if all(x.short in ('join', 'concat') and x.dst_local() is not None for x in bad) and 0 not in apath:
+                import textflow
+                tf = textflow.TextFlow(self.prog, self.error_stream_only)
+                oks, bads = [], []
+                for x in bad:
+                    o2, b2 = tf.run(fn, x.dst_local())
+                    oks += o2
+                    bads += b2
+                if oks and not bads:
+                    return 'ok', 'joined in hash order by %s at %s, but the text reaches the error stream only (%d write site(s): %s)' % (
+                        c.short, c.where(), len(oks), ', '.join(sorted({w for (_, w, _) in oks if w})[:3])), None
+                why = ' [text flow: %s at %s]' % (bads[0][2], bads[0][1]) if bads else ''
+                return 'sens', 'used in hash order by %s at %s before any sort%s' % (c.callee, c.where(), why), None
             return 'sens', 'used in hash order by %s at %s before any sort' % (c.callee, c.where()), None
         for i, b in fn.blocks.items():
             if i not in reach:
